@@ -61,6 +61,14 @@ CHECKS = {
          "str::split/splitn/trim/starts_with, u64::from_str, char::is_whitespace (Unicode White_Space) and Display for u64 are modelled, not verified; "
          "strings are valid UTF-8 shorter than 2^64 bytes; EndpointID values assembled directly from the public enum variants are outside the property.",
          "DESIGN.md section 6 C10"),
+ "C15": ("Coq theorems C15_json_roundtrip / C15_decode_encode / C15_text_is_print / C15_idempotent: for every well-formed bundle (C01 domain: fragments and "
+         "non-fragments, every CRC type and prior CRC state, any number of blocks) the serde token tree bp7's Serialize impls hand to serde_json parses back, "
+         "through transcriptions of bp7's Deserialize visitors on a sequence access without size hint, to the bundle with its freshly stored CRCs, and nothing "
+         "but CRC values changes; C15_pinned_refuted keeps D12 machine-checked (with `size_hint().unwrap_or(0)` the JSON of EVERY fragment fails to parse). "
+         "K-json channel: to_json text compared byte for byte with the model's compact printer and with Python's json.dumps, try_from(String) compared with "
+         "from_tokens on the library's own text and on mutated token trees.",
+         "serde_json's text layer (lexer, escapes, number syntax) is trusted: parse(print t) = t is not proved; serde_json's token interface is modelled, not verified.",
+         "DESIGN.md section 6 C15"),
  "C16": ("Coq theorems C16_ippt (for every scope-flag value < 8, every primary without CRC, every target block of any type and every security "
          "header the transcription of IntegrityProtectedPlaintext::create equals the RFC 9173 3.7 concatenation written with the generic CBOR "
          "writer; C16_ippt_raw_flags says what happens beyond bit 2), C16_result_shape (compute_hmac yields exactly one (1, HMAC-SHA2(key, ippt)) "
@@ -87,7 +95,7 @@ PENDING = {
  "C05": "check not built yet (CRC window algebra is proved in Proofs/CrcAlgebra.v; pipeline theorem and channel pending)",
 
  "C11": "check not built yet", "C12": "check not built yet", "C13": "check not built yet", "C14": "check not built yet",
- "C15": "check not built yet", "C19": "check not built yet", "C20": "check not built yet",
+ "C19": "check not built yet", "C20": "check not built yet",
 }
 
 
